@@ -246,6 +246,9 @@ def run(cx, rep):
     rep.rule("C11.7", "literal object members of an intersection are merged whenever their shared properties are equal (= C08.5)")
     from rules.c08 import all_of_merge_rule
     all_of_merge_rule(cx, rep, "C11.7")
+    # (shared with C07.13) an index signature that the materialiser leaves out closes the object
+    from rules.c07 import optional_part_rule
+    optional_part_rule(cx, rep, "C11.8")
     rep.rule("C11.5", "open-object inclusion never decides which members of a printed union are kept")
     open_inclusion_callers_rule(cx, rep, "C11.5")
     rep.rule("C11.6", "strict mode finds undeclared keys by name, never by counting (= C03.13)")
